@@ -102,6 +102,10 @@ func main() {
 		fmt.Fprintln(os.Stderr, "usage: vcheck <Cxx> quick|thorough | vcheck replay <file>")
 		os.Exit(2)
 	}
+	if os.Args[1] == "C06worker" {
+		c06WorkerEntry(os.Args[2:])
+		return
+	}
 	if os.Args[1] == "replay" {
 		os.Exit(doReplay(os.Args[2]))
 	}
